@@ -94,6 +94,7 @@ type FileImpl interface {
 type FS interface {
 	Open(name string) (FileImpl, error)
 	Create(name string) (FileImpl, error)
+	OpenFile(name string, flag int, perm os.FileMode) (FileImpl, error)
 	MkdirAll(path string, perm os.FileMode) error
 	Stdin() FileImpl
 	Stdout() FileImpl
@@ -210,6 +211,22 @@ func Open(name string) (*File, error) {
 		return &File{name, impl}, nil
 	}
 	of, err := os.Open(name)
+	if err != nil {
+		return nil, err
+	}
+	return &File{name, osFile{of}}, nil
+}
+
+// OpenFile is os.OpenFile.
+func OpenFile(name string, flag int, perm os.FileMode) (*File, error) {
+	if f := fs(); f != nil {
+		impl, err := f.OpenFile(name, flag, perm)
+		if err != nil {
+			return nil, err
+		}
+		return &File{name, impl}, nil
+	}
+	of, err := os.OpenFile(name, flag, perm)
 	if err != nil {
 		return nil, err
 	}
